@@ -33,7 +33,13 @@ func policyOf(kind string) (ir.LiteralPolicy, bool) {
 	return ir.DefaultLiteralPolicy, false
 }
 
-func fpDigest(path, kind string) (string, int, error) {
+func fpDigest(path, kind string) (dg string, n int, err error) {
+	// a panic of the analysis is an outcome of this context too (compared with the others by the contract)
+	defer func() {
+		if r := recover(); r != nil {
+			dg, n, err = "PANIC", -2, nil
+		}
+	}()
 	src, err := os.ReadFile(path)
 	if err != nil {
 		return "", 0, err
@@ -222,6 +228,11 @@ func fpRun(args []string) error {
 				wg2.Add(1)
 				go func(i int) {
 					defer wg2.Done()
+					defer func() {
+						if r := recover(); r != nil {
+							conc[i] = diff.FingerprintResult{FunctionName: "PANIC", Fingerprint: fmt.Sprint(r)}
+						}
+					}()
 					<-start
 					conc[i] = diff.GenerateFingerprint(fn, pol, false)
 				}(i)
